@@ -31,4 +31,27 @@ def pinnedTouches (g : Grid) (fb : Box) (f : Int × Int → Bool) : Bool :=
   ((boxPx fb).filter g.A).any (fun p =>
     f ((((p.2 - fb.clo : Nat) : Int) + fb.rlo - 1), (((p.1 - fb.rlo : Nat) : Int) + fb.clo - 1)))
 
+/-! ### glue for the regenerated region probe (translator/targets/C11.py → `Gen.C11`) -/
+
+/-- hand fallbacks -/
+def probeXHand (_r c _row0 col0 : Nat) : Nat := c + col0
+def probeYHand (r _c row0 _col0 : Nat) : Nat := r + row0
+def probeOriginHand (_r _c _row0 _col0 : Nat) : Nat := 0
+def probeScopeHand (_r _c _row0 _col0 : Nat) : Nat := 1
+
+/-- the 0-based FITS pixel position `(x, y)` at which the code asks "is this island pixel inside the region?":
+    the coordinates handed to `pix2world(…, origin)` for the pixel at offsets `(r, c)` of the box, minus `origin` -/
+def probeOf (px py org : Nat → Nat → Nat → Nat → Nat) (fb : Box) (p : Px) : Int × Int :=
+  let r := p.1 - fb.rlo
+  let c := p.2 - fb.clo
+  ((px r c fb.rlo fb.clo : Int) - (org r c fb.rlo fb.clo : Int), (py r c fb.rlo fb.clo : Int) - (org r c fb.rlo fb.clo : Int))
+
+/-- `find_islands(region=…)` assembled from the regenerated probe: `sky (x, y)` says whether the 0-based FITS
+    pixel position `(x, y)` (x = column, y = row) is inside the region -/
+def findRestrictedSky (px py org : Nat → Nat → Nat → Nat → Nat) (sky : Int × Int → Bool)
+    (g : Grid) (lab : Px → Nat) (n : Nat) : List Island :=
+  (List.range n).filterMap (fun k =>
+    (boxOf (labelled g lab (k + 1))).bind (fun fb =>
+      islandIn g lab (some (fun p => sky (probeOf px py org fb p))) (k + 1) fb))
+
 end Aegean.Model.C11
